@@ -289,6 +289,26 @@ func (c *Ctx) ruleU2(rule string) {
 			}
 			fa, ok := st.Addr.(*ssa.FieldAddr)
 			if !ok {
+				// the whole node overwritten through a pointer: `*old = *new`
+				if _, isCell := st.Addr.(*ssa.Alloc); isCell {
+					return
+				}
+				// the stored value is the struct itself, not a pointer to it
+				nt, isNamed := st.Val.Type().(*types.Named)
+				if !isNamed || nt.Obj().Pkg() == nil || nt.Obj().Pkg().Path() != pBase || !c.astTypes()[nt.Obj().Name()] {
+					return
+				}
+				if _, isStruct := nt.Underlying().(*types.Struct); !isStruct {
+					return
+				}
+				xx := c.Index(f)
+				if _, fresh := xx.Origin(st.Addr).(*ssa.Alloc); fresh {
+					return
+				}
+				if _, isCell := xx.ResolveAddr(st.Addr).(*ssa.Alloc); isCell {
+					return
+				}
+				c.Check(rule, fmt.Sprintf("%s#ast-store-%s.*", fnName(f), nt.Obj().Name()), false, in.Pos(), "a compiled rule / AST node (%s) is overwritten as a whole outside the compile step; compiled rules are shared by all executions and versions", nt.Obj().Name())
 				return
 			}
 			nt := namedOf(derefType(fa.X.Type()))
